@@ -163,6 +163,26 @@ def declared_hooks(cfg):
     return hooks, bump
 
 
+HARMLESS_EVENTS = ("ProbeEvent", "FundamentalPriceShock", "PriceLimitRule", "OrderMistakeShock")
+
+
+def running_is_configured(cfg):
+    """True when no event of the configuration can stop a market (only classes known not to touch the running flag are
+    declared): a market then runs exactly in the sessions configured with order execution"""
+    for s in cfg.get("simulation", {}).get("sessions", []):
+        if not isinstance(s, dict) or "extends" in s:
+            return False
+        for en in s.get("events", []):
+            e = cfg.get(en)
+            seen = 0
+            while isinstance(e, dict) and "class" not in e and "extends" in e and seen < 8:
+                e = cfg.get(e["extends"])
+                seen += 1
+            if not isinstance(e, dict) or e.get("class") not in HARMLESS_EVENTS:
+                return False
+    return True
+
+
 def session_truth(cfg, sim):
     """Session parameters AS CONFIGURED (what the scheduling properties are stated over): explicit keys of the session's
     json entry win; the Session object is consulted only for what the entry leaves to defaults or inheritance."""
@@ -172,19 +192,38 @@ def session_truth(cfg, sim):
         c = entries[i] if i < len(entries) and isinstance(entries[i], dict) and "extends" not in entries[i] else {}
         out.append([int(c.get("iterationSteps", s.iteration_steps)), bool(c.get("withOrderPlacement", s.with_order_placement)),
                     bool(c.get("withOrderExecution", s.with_order_execution)),
-                    int(c.get("maxNormalOrders", s.max_normal_orders)), int(c.get("maxHighFrequencyOrders", s.max_high_frequency_orders)),
-                    rate_class(c.get("highFrequencySubmitRate", s.high_frequency_submission_rate)), int(s.session_start_time)])
+                    int(c.get("maxNormalOrders", s.max_normal_orders)),
+                    int(c.get("maxHighFrequencyOrders", c.get("maxHifreqOrders", s.max_high_frequency_orders))),      # (deprecated spellings)
+                    rate_class(c.get("highFrequencySubmitRate", c.get("hifreqSubmitRate", s.high_frequency_submission_rate))),
+                    int(s.session_start_time)])
     return out
 
 
-def execute(cfg, seed, exact=True, forced_draws=None, scripts=None, extra_classes=(), no_logger=False):
+def execute(cfg, seed, exact=True, forced_draws=None, scripts=None, extra_classes=(), no_logger=False, cash_unit=None):
     """Runs cfg with the probes; returns the recorded run (dict) - never raises for exceptions of the code
     under test (they are recorded as an `abort` event)."""
+    settings = copy.deepcopy(cfg)
+    vf = settings.pop("_verif", {})
+    if vf.get("warm"):
+        # the SAME settings object has configured a runner before (the usual way of repeating a simulation): what that first
+        # runner did to it must not change what the second one does
+        probes.set_recorder(probes.Recorder(exact=exact))
+        try:
+            with contextlib.redirect_stdout(io.StringIO()):
+                r0 = SequentialRunner(settings=settings, prng=probes.ScriptRandom(seed), logger=None, simulator_class=probes.ProbeSimulator)
+                for c in list(PROBE_CLASSES) + list(extra_classes):
+                    r0.class_register(c)
+                r0._setup()
+        except MachineryError:
+            raise
+        except Exception:  # noqa: BLE001 - judged on the recorded (second) runner
+            pass
     rec = probes.set_recorder(probes.Recorder(exact=exact))
     if scripts:
         rec.scripts = scripts
+    if cash_unit:
+        rec.cash_unit = cash_unit
     prng = probes.ScriptRandom(seed, forced=forced_draws)
-    settings = copy.deepcopy(cfg)
     abort = ""
     runner = None
     out = io.StringIO()
@@ -196,9 +235,14 @@ def execute(cfg, seed, exact=True, forced_draws=None, scripts=None, extra_classe
                 runner.class_register(c)
             runner._setup()
             sim = runner.simulator
+            if exact and sim.markets:
+                # cash is logged in the finest price unit of the run when that is below the usual 2^-7 (a function of the cfg)
+                rec.cash_unit = min([rec.cash_unit] + [rec.U(m.market_id).unit for m in sim.markets])
             hooks, bump = declared_hooks(cfg)
+            if running_is_configured(cfg):
+                rec.exec_truth = [bool(x[2]) for x in session_truth(cfg, sim)]
             rec.emit("init", hold=rec.holdings(), endow=configured_endowment(cfg, sim, rec), hooks=hooks, bump=bump,
-                     cs=[int(round(rec.U(m.market_id).unit / probes.CASH_UNIT)) if exact else 0 for m in sim.markets],
+                     cs=[int(round(rec.U(m.market_id).unit / rec.cash_unit)) if exact else 0 for m in sim.markets],
                      acc=[[bool(a.is_market_accessible(m.market_id)) for m in sim.markets] for a in sim.agents],
                      hft=[isinstance(a, probes.HighFrequencyAgent) for a in sim.agents],
                      idx=[isinstance(m, probes.IndexMarket) for m in sim.markets],
@@ -255,6 +299,95 @@ def penny_runs(n, seed):
                 cfg[g]["script"] = dict(cfg[g]["script"], penny=True, spread=3, pMarket=0.3, pEmpty=0.1)
         r = execute(cfg, rng.randrange(2 ** 31))
         r["src"] = "penny-config"
+        runs.append(r)
+    return runs
+
+
+def handover_runs(n, seed):
+    """a session that takes orders without matching them hands its books over to a session that matches without taking
+    orders (and on to whatever follows): the markets of the second one RUN - their price follows the quotes left behind"""
+    rng = random.Random(sub_seed(seed, "handover-configs"))
+    runs = []
+    for i in range(n):
+        cfg = random_config(rng)
+        ss = cfg["simulation"]["sessions"]
+        while len(ss) < 2:
+            ss.append(dict(ss[0], sessionName=len(ss)))
+            ss[-1].pop("events", None)
+        ss[0].update(withOrderPlacement=True, withOrderExecution=False, iterationSteps=rng.randint(2, 5), maxNormalOrders=max(2, ss[0]["maxNormalOrders"]))
+        ss[1].update(withOrderPlacement=False, withOrderExecution=True, iterationSteps=rng.randint(2, 4))
+        cfg["N"]["script"] = dict(cfg["N"]["script"], pEmpty=0.0, pMarket=0.0, pCancel=0.1)
+        r = execute(cfg, rng.randrange(2 ** 31))
+        r["src"] = "handover-config"
+        runs.append(r)
+    return runs
+
+
+def session_cancel_runs(n, seed):
+    """a user event whose before-session hook cancels resting orders at the session switch: records that come into being
+    between two sessions (C10: delivered no later than the boundary that follows, in the order in which things happened)"""
+    rng = random.Random(sub_seed(seed, "session-cancel-configs"))
+    runs = []
+    for i in range(n):
+        cfg = random_config(rng)
+        ss = cfg["simulation"]["sessions"]
+        while len(ss) < 2:
+            ss.append(dict(ss[0], sessionName=len(ss)))
+            ss[-1].pop("events", None)
+        ss[0].update(withOrderPlacement=True, iterationSteps=max(2, ss[0]["iterationSteps"]), maxNormalOrders=max(2, ss[0]["maxNormalOrders"]))
+        ss[0]["withOrderExecution"] = rng.random() < 0.5
+        cfg["N"]["script"] = dict(cfg["N"]["script"], pEmpty=0.0, pMarket=0.0)
+        for k, s in enumerate(ss[1:], start=1):
+            name = "SC%d" % k
+            cfg[name] = {"class": "ProbeEvent", "hooks": [["session", True, None, ""]], "bump": 0, "sessionCancel": True}
+            s.setdefault("events", []).append(name)
+        r = execute(cfg, rng.randrange(2 ** 31))
+        r["src"] = "session-cancel-config"
+        runs.append(r)
+    return runs
+
+
+def legacy_reuse_runs(n, seed):
+    """the deprecated spellings of the high-frequency cap and rate (still honoured, with a warning), in a settings object that
+    has configured a runner before: every session of the second runner is run with the caps and rates AS CONFIGURED"""
+    rng = random.Random(sub_seed(seed, "legacy-reuse-configs"))
+    runs = []
+    for i in range(n):
+        cfg = random_config(rng)
+        for k, s in enumerate(cfg["simulation"]["sessions"]):
+            s["withOrderPlacement"] = True
+            s["maxHifreqOrders"] = s.pop("maxHighFrequencyOrders") if rng.random() < 0.5 else rng.choice([0, 2, 3])
+            s["hifreqSubmitRate"] = s.pop("highFrequencySubmitRate") if rng.random() < 0.5 else rng.choice([0.0, 0.5])
+            s.pop("maxHighFrequencyOrders", None)
+            s.pop("highFrequencySubmitRate", None)
+        cfg["simulation"]["agents"] = ["N", "H"]
+        cfg["H"]["script"] = dict(cfg["H"]["script"], pEmpty=0.0)
+        cfg["_verif"] = {"warm": i % 3 != 0}
+        r = execute(cfg, rng.randrange(2 ** 31))
+        r["src"] = "legacy-reuse-config"
+        runs.append(r)
+    return runs
+
+
+def micro_runs(n, seed):
+    """a grid far below the usual ones (tick 2^-18, about 4e-6): every fill moves price x volume of cash EXACTLY, also where
+    that amount has more decimal places than any usual tick; cash is logged in units of half a tick"""
+    rng = random.Random(sub_seed(seed, "micro-configs"))
+    runs = []
+    tick = 2.0 ** -18
+    for i in range(n):
+        cfg = random_config(rng)
+        for name in cfg["simulation"]["markets"]:
+            scale = tick / cfg[name]["tickSize"]
+            cfg[name]["tickSize"] = tick
+            cfg[name]["marketPrice"] = cfg[name]["marketPrice"] * scale
+        for g in cfg:
+            if isinstance(cfg[g], dict) and "cashAmount" in cfg[g]:
+                cfg[g]["cashAmount"] = rng.choice([64, 16, 1])
+        for s in cfg["simulation"]["sessions"]:
+            s["withOrderExecution"] = True
+        r = execute(cfg, rng.randrange(2 ** 31))
+        r["src"] = "micro-config"
         runs.append(r)
     return runs
 
